@@ -34,6 +34,8 @@ plan('C09',
          Job(H, 'mutants', 'plain', quick=2500, thorough=60000, shards=(2, 6), batch=200, case_timeout=120),
          Job(H, 'targets', 'asan', quick=(ntargets(8) + PER - 1) // PER, thorough=(ntargets(11) + PER - 1) // PER, shards=(4, 8), params=dict(maxchars=8, per=PER), tparams=dict(maxchars=11), batch=50, case_timeout=250),
          Job(H, 'targets', 'plain', quick=(ntargets(9) + PER - 1) // PER, thorough=(ntargets(12) + PER - 1) // PER, shards=(4, 8), params=dict(maxchars=9, per=PER), tparams=dict(maxchars=12), batch=100, case_timeout=250),
+         Job(H, 'bodies_mt', 'plain', quick=60, thorough=600, shards=(4, 8), batch=10, case_timeout=250),
+         Job(H, 'bodies_mt', 'tsan', quick=12, thorough=100, shards=(4, 8), batch=3, case_timeout=250, leakcheck=False),
          Job(H, 'targets_rand', 'asan', quick=400, thorough=15000, shards=(2, 4), batch=50, case_timeout=250),
          Job(H, 'url', 'asan', quick=urlblocks(5, 2000), thorough=urlblocks(6, 2000), shards=(4, 8), params=dict(maxlen=5, blk=2000), tparams=dict(maxlen=6)),
          Job(H, 'url_rand', 'asan', quick=300, thorough=10000, shards=(2, 4)),
